@@ -1,10 +1,10 @@
 """which translated function groups (tools/gen_code.py → Generated/Code_<group>.lean, proofs in Proofs/Code_<group>.lean,
 statements in Props/Source_<group>.lean) each property's model depends on, and the theorems tying each group to the model"""
-DEPS = {'C01': ['classes', 'simplify', 'shapes', 'lookup', 'values'],
+DEPS = {'C01': ['classes', 'simplify', 'shapes', 'lookup', 'values', 'insert'],
         'C02': ['data'],
-        'C03': ['classes', 'simplify', 'shapes', 'values', 'wrapmerge'],
+        'C03': ['classes', 'simplify', 'shapes', 'values', 'insert', 'wrapmerge'],
         'C04': ['classes', 'simplify', 'shapes', 'values', 'wrapsplit'],
-        'C05': ['classes', 'simplify', 'shapes', 'values', 'wrapsplit', 'wrapmerge'],
+        'C05': ['classes', 'simplify', 'shapes', 'values', 'insert', 'wrapsplit', 'wrapmerge'],
         'C06': ['classes', 'simplify'],
         'C07': ['classes', 'simplify', 'shapes', 'valid'],
         'C08': ['classes', 'lookup'],
@@ -25,7 +25,8 @@ GROUP_THEOREMS = {
               'cells_are_model_blocks', 'get_shape_accepts_iff_model'],
     'values': ['get_changed_class_is_model', 'copy_slice_dest_is_model', 'copy_slice_vals_is_model', 'copy_slice_vals_zero_div',
                'global_slice_subset_is_model', 'insert_slice_interleave_is_model', 'insert_sample_interleave_is_model',
-               'slice_step_is_model'],
+               'slice_step_is_model', 'get_changed_class_no_slice_dim_is_model'],
+    'insert': ['change_class_is_model', 'insert_slice_is_model', 'insert_non_slice_is_model', 'insert_sample_is_model'],
     'data': ['file_idx_is_model', 'file_idx_volume_is_model', 'get_data_trim_is_model'],
 }
 
